@@ -71,6 +71,10 @@ func main() {
 	}
 }
 
+var hookRe = regexp.MustCompile(`^//verif:hook\s+(\S+)\s+(\S+)`)
+
+var hookSpecs []hookSpec
+
 var nativeRe = regexp.MustCompile(`^//verif:native\s+(\S+)`)
 
 type nativeTest struct {
@@ -90,11 +94,23 @@ func parseHarnessDir(dir string) ([]*harnessFile, []*entrySpec, error) {
 	var files []*harnessFile
 	var entries []*entrySpec
 	byName := map[string]*entrySpec{}
+	var paths []string
 	for _, de := range ents {
-		if !strings.HasSuffix(de.Name(), ".go") {
-			continue
+		if strings.HasSuffix(de.Name(), ".go") {
+			paths = append(paths, filepath.Join(dir, de.Name()))
 		}
-		p := filepath.Join(dir, de.Name())
+	}
+	// shared set-up files: one path per line in include.txt, relative to the harness directory
+	if inc, err := os.ReadFile(filepath.Join(dir, "include.txt")); err == nil {
+		for _, l := range strings.Split(string(inc), "\n") {
+			l = strings.TrimSpace(l)
+			if l != "" && !strings.HasPrefix(l, "#") {
+				paths = append(paths, filepath.Join(dir, l))
+			}
+		}
+	}
+	for _, p := range paths {
+		de := fakeDirEntry(filepath.Base(p))
 		b, err := os.ReadFile(p)
 		if err != nil {
 			return nil, nil, err
@@ -106,6 +122,17 @@ func parseHarnessDir(dir string) ([]*harnessFile, []*entrySpec, error) {
 			line := strings.TrimSpace(sc.Text())
 			if strings.HasPrefix(line, "//verif:pkg ") {
 				hf.pkgDir = strings.TrimSpace(strings.TrimPrefix(line, "//verif:pkg "))
+			}
+			if m := hookRe.FindStringSubmatch(line); m != nil {
+				dup := false
+				for _, h := range hookSpecs {
+					if h.dir == m[1] && h.name == m[2] {
+						dup = true
+					}
+				}
+				if !dup {
+					hookSpecs = append(hookSpecs, hookSpec{dir: m[1], name: m[2]})
+				}
 			}
 			if m := nativeRe.FindStringSubmatch(line); m != nil {
 				nativeTests = append(nativeTests, nativeTest{name: m[1], file: hf})
@@ -151,6 +178,10 @@ func pkgNameOf(content []byte) string {
 	}
 	return ""
 }
+
+type fakeDirEntry string
+
+func (f fakeDirEntry) Name() string { return string(f) }
 
 type overlaySet struct {
 	mem   map[string][]byte // for go/packages
@@ -331,6 +362,22 @@ func cmdCheck(args []string) int {
 		return fail(err.Error())
 	}
 	defer os.RemoveAll(ov.tmp)
+	if len(hookSpecs) > 0 {
+		hooked, err := applyHooks(hookSpecs)
+		if err != nil {
+			return fail(err.Error())
+		}
+		i := 0
+		for p, content := range hooked {
+			real := filepath.Join(ov.tmp, fmt.Sprintf("hooked_%d_%s", i, filepath.Base(p)))
+			i++
+			if err := os.WriteFile(real, content, 0o644); err != nil {
+				return fail(err.Error())
+			}
+			ov.mem[p] = content
+			ov.files[p] = real
+		}
+	}
 	if *replayPath != "" {
 		b, err := os.ReadFile(*replayPath)
 		if err != nil {
